@@ -16,8 +16,9 @@ static Verdict run_hist(const Case &c, Stats *st_out = nullptr) {
         const Op &op = c.ops[i];
         if (op.kind == K_ADVANCE) { vp_set_now_ms(vp_now_ms() + (uint64_t)op.arg(0)); continue; }
         Built b = build_frame(h, op, sh);
-        if (!b.is_frame || b.station < 0) continue;
+        if (!b.is_frame) continue;
         Sem sem = frame_sem(b.frame);
+        if (b.station < 0 && sem != SEM_NONE && sem != SEM_RESET) continue;   // sender unknown to the model (cannot happen with the generators used here)
         // domain restriction of the statement: a command is issued only by the active mapper or while none is active
         if (sem == SEM_COMMAND && sh.active >= 0 && sh.active != b.station) continue;
         std::vector<Ev> tx = sends_only(w.deliver(ifi, b.frame));
@@ -96,7 +97,7 @@ int main(int argc, char **argv) {
     // ---- (2) random histories
     if (ok) {
         HistWeights w;
-        w.discover = 10; w.reset = 3; w.shell = 6; w.hello = 1; w.probe = 1; w.emit = 2; w.query = 2; w.qlt = 2;
+        w.discover = 10; w.reset = 3; w.shell = 6; w.hello = 1; w.probe = 3; w.emit = 2; w.query = 2; w.qlt = 2;
         ok = run_cases(a, ev, "c05-histories", a.n(40000, 600000), 100, hg::hist_case(w, 5, 60), run);
     }
     ev.write(a.out);
